@@ -197,3 +197,25 @@ Proof.
   rewrite <- H1. split; [|split; assumption].
   unfold alias_type, resolve_union. rewrite <- !app_assoc. reflexivity.
 Qed.
+
+(* the model with declared enums specialises to the plain-string model the theorems above are about *)
+Lemma collected_o_nil : forall tab u, collected_o [] tab u = collected u.
+Proof.
+  intros tab u. unfold collected_o, collected. apply flat_map_ext. intro v.
+  destruct (alookup v tab); reflexivity.
+Qed.
+
+Lemma fold_process_o_nil : forall us tab, fold_left (process_o []) us tab = fold_left process us tab.
+Proof.
+  induction us as [|u us IH]; intro tab; simpl; [reflexivity|].
+  rewrite IH. f_equal. unfold process_o, process. rewrite collected_o_nil. reflexivity.
+Qed.
+
+Lemma collect_o_nil : forall us, collect_o [] us = collect us.
+Proof. intro us. unfold collect_o, collect. apply fold_process_o_nil. Qed.
+
+(* the seeded shape of round 3: Dog declares enum [dog; puppy], the mapping sends both to Dog: both stay accepted *)
+Example own_enum_two_values :
+  final_enum [(n_Dog, [v_dog; v_kitty])] [{| du_name := [80]; du_variants := [n_Dog; n_Cat];
+      du_mapping := [(v_dog, n_Dog); (v_kitty, n_Dog); (v_cat, n_Cat)] |}] n_Dog = Some [v_dog; v_kitty; v_cat].
+Proof. vm_compute. reflexivity. Qed.
